@@ -95,7 +95,8 @@ Fixpoint l_has_arg (e : lexp) : bool :=
   | LAppend l x => l_has_arg l || z_has_arg x
   | LMap k l | LAccept k l | LTop k l | LSkip k l | LGuard k l => s_has_arg k || l_has_arg l
   | LConcat a b => l_has_arg a || l_has_arg b
-  | LReverse l | LForce l => l_has_arg l
+  | LReverse l | LForce l | LOrder l => l_has_arg l
+  | LStage _ a b => l_has_arg a || l_has_arg b
   end
 with z_has_arg (e : zexp) : bool :=
   match e with
@@ -105,6 +106,7 @@ with z_has_arg (e : zexp) : bool :=
   | ZSize l | ZSum l | ZFirst l => l_has_arg l
   | ZThrow => true                (* throw is impure: never folded *)
   | ZIfLt a b t e => z_has_arg a || z_has_arg b || z_has_arg t || z_has_arg e
+  | ZCall a b x => s_has_arg a || s_has_arg b || z_has_arg x
   end.
 
 (* every compound node depends on an argument *)
@@ -117,7 +119,8 @@ Fixpoint l_nofold (e : lexp) : bool :=
   | LAppend l x => l_has_arg e && l_nofold l && z_nofold x
   | LMap k l | LAccept k l | LTop k l | LSkip k l | LGuard k l => l_has_arg e && l_nofold l
   | LConcat a b => l_has_arg e && l_nofold a && l_nofold b
-  | LReverse l | LForce l => l_has_arg l && l_nofold l
+  | LReverse l | LForce l | LOrder l => l_has_arg l && l_nofold l
+  | LStage _ a b => l_has_arg e && l_nofold a && l_nofold b
   end
 with z_nofold (e : zexp) : bool :=
   match e with
@@ -128,6 +131,7 @@ with z_nofold (e : zexp) : bool :=
   | ZSize l | ZSum l | ZFirst l => l_has_arg l && l_nofold l
   | ZThrow => true
   | ZIfLt a b t e' => (z_has_arg a || z_has_arg b) && z_nofold a && z_nofold b && z_nofold t && z_nofold e'
+  | ZCall a b x => z_has_arg e && z_nofold x
   end.
 
 Definition body_nofold (b : body) : bool := match b with BZ e => z_nofold e | BL e => l_nofold e end.
